@@ -18,6 +18,9 @@ VisitVerdict(e) ==
       S == Reach(h, root)
   IN  {"full_" \o o : o \in {o \in Orders : e.orders[o].full # exp(o)}}
  \cup {"start_depth_or_data_" \o o : o \in {o \in Orders : \E k \in 1..Len(e.orders[o].shifted) : e.orders[o].shifted[k] # exp(o)}}
+ \cup {"visitor_raises_" \o o : o \in {o \in Orders : \E k \in 1..Len(e.orders[o].raising) : LET x == e.orders[o].raising[k] IN
+            IF x.k \in 1..Len(exp(o)) THEN x.outcome # "raised" \/ x.seen # Stopped(exp(o), x.k) \/ x.again # exp(o)
+            ELSE x.outcome # "returned" \/ x.again # exp(o)}}
  \cup {"reentrant_" \o o : o \in {o \in Orders : \E k \in 1..Len(e.orders[o].nested) : e.orders[o].nested[k] # exp(o)}}
  \cup {"stop_" \o o : o \in {o \in Orders : \E k \in 1..Len(e.orders[o].stops) :
             LET s == e.orders[o].stops[k] IN
